@@ -1,4 +1,4 @@
-import GoSquare.Properties.C05
+import GoSquare.Proofs.C05Core
 import GoSquare.Proofs.C04Core
 import GoSquare.Proofs.SquareWF
 /-! # C05 on constructed squares
